@@ -47,7 +47,7 @@ func union(a, b string) string {
 func c08(r *core.Run) {
 	r.Expl = "C08 (query results equal a direct aggregation): decides (1) soundness of the IP-version pruning of the block scan, exhaustively over the finite value domain: the function that yields Query.ipVersion is interpreted on every combination of child restrictions — for a conjunction the result's family set must contain the intersection, for a disjunction the union, a leaf may restrict only under comparator '=', everything else is unrestricted — and Query.ipVersion has no other source; (2) the key-population block and the comparison-value block of the evaluation loop are siblings: per attribute the same column, and every slice into a column is [W*i, W*i+W) (IPv4) resp. [4*v4+16*(i-v4), …+16) (IPv6) with W the declared width constant, checked by symbolic linear evaluation of the index expressions; (3) flag tables: the k-th attribute / condition flag setter sets the flag of the attribute whose column index is k; (4) in RunStatement every iterator step adds the same value to totals and to exactly one row and advances the row count once; Hits.Total and the row slice are that count; (5) at every SetOrUpdate call site argument k denotes the counter the callee adds parameter k to, and the callee's update and insert blocks agree. NOT decided: equality with an independent aggregation over all databases/conditions/ranges, time-filter arithmetic."
 	r.Floor = 60
-	r.Rules = append(r.Rules, "pruning-soundness (P7: interpretation over the enum domain)", "index-linear-form (P6+P4)", "flag-tables (P4)", "row-accounting (P2)", "counter-positions", "per-block-state-refreshed")
+	r.Rules = append(r.Rules, "pruning-soundness (P7: interpretation over the enum domain)", "index-linear-form (P6+P4)", "flag-tables (P4)", "row-accounting (P2)", "counter-positions", "per-block-state-refreshed", "options-applied (functional options reach the returned object on every path)")
 	p := r.Prog("cgo")
 	c08Pruning(r, p)
 	c08Population(r, p)
@@ -56,6 +56,26 @@ func c08(r *core.Run) {
 	c08StaleCarry(r, p)
 	m := ruleSetOrUpdateMapping(r, p)
 	ruleSetOrUpdateSites(r, p, m, pkgGoDB, pkgHashmap)
+	// the direction filter of a query reaches the result rows as an option of AggFlowMap.Iter
+	if f := r.MustFunc("options-applied", pkgHashmap, "AggFlowMap.Iter"); f != nil {
+		applies, bad := optionsNotApplied(p, f)
+		if !applies {
+			r.Undecided("options-applied", "AggFlowMap.Iter", p.Rel(f.Decl.Pos()), "no loop applying the iterator options to the returned iterator recognised")
+		} else {
+			r.Check("options-applied", "AggFlowMap.Iter", p.Rel(f.Decl.Pos()), len(bad) == 0, strings.Join(bad, "; ")+": the iterator handed out ignores the options of the caller (the direction filter of a query is one), so the result contains rows the query excludes")
+		}
+	}
+	if r.Thorough() {
+		// the same discipline for every constructor of the module that takes functional options
+		for _, fn := range p.AllFuncs() {
+			if strings.HasPrefix(core.RelPkg(fn.Pkg.PkgPath), "examples/") || fn.Where() == pkgHashmap+".AggFlowMap.Iter" {
+				continue
+			}
+			if applies, bad := optionsNotApplied(p, fn); applies {
+				r.Check("options-applied", "sweep:"+fn.Where(), p.Rel(fn.Decl.Pos()), len(bad) == 0, strings.Join(bad, "; "))
+			}
+		}
+	}
 }
 
 func c08Pruning(r *core.Run, p *core.Prog) {
@@ -724,4 +744,75 @@ func c08StaleCarry(r *core.Run, p *core.Prog) {
 	if n < 4 {
 		r.Undecided(rule, "readBlocksAndEvaluate:carried-variables", p.Rel(loop.Pos()), fmt.Sprintf("only %d assignments to variables declared outside the block loop", n))
 	}
+}
+
+// optionsNotApplied (functional-options discipline): fn takes a variadic list of option functions `...func(*T)` and
+// returns a *T. Callers select behaviour through the options (engine.RunStatement passes the direction filter of a query
+// to AggFlowMap.Iter this way), so every object the function returns must have had every option applied: each return of
+// a non-nil value must return the object the option loop works on and be dominated by that loop. A shortcut return in
+// front of the loop hands out an object that silently ignores what the caller asked for.
+func optionsNotApplied(p *core.Prog, fn *core.Fn) (applies bool, bad []string) {
+	info := fn.Info()
+	sig := fn.Obj.Type().(*types.Signature)
+	if !sig.Variadic() || sig.Params().Len() == 0 || sig.Results().Len() == 0 {
+		return false, nil
+	}
+	optsParam := sig.Params().At(sig.Params().Len() - 1)
+	sl, ok := optsParam.Type().Underlying().(*types.Slice)
+	if !ok {
+		return false, nil
+	}
+	osig, ok := sl.Elem().Underlying().(*types.Signature)
+	if !ok || osig.Params().Len() != 1 || osig.Results().Len() != 0 {
+		return false, nil
+	}
+	// the function must return what the options configure (*T, or T for options on *T)
+	rt, ot := sig.Results().At(0).Type(), osig.Params().At(0).Type()
+	if !types.Identical(rt, ot) {
+		if pt, isPtr := ot.(*types.Pointer); !isPtr || !types.Identical(rt, pt.Elem()) {
+			return false, nil
+		}
+	}
+	// the option loop and the object it configures
+	var loop *ast.RangeStmt
+	var target types.Object
+	core.Walk(fn.Decl.Body, false, func(x ast.Node) bool {
+		rs, ok := x.(*ast.RangeStmt)
+		if !ok || core.ObjOf(info, rs.X) != types.Object(optsParam) || rs.Value == nil {
+			return true
+		}
+		ov := core.ObjOf(info, rs.Value)
+		for _, c := range core.Calls(rs.Body, false) {
+			if core.ObjOf(info, c.Fun) == ov && len(c.Args) == 1 {
+				loop, target = rs, core.ObjOf(info, rootExpr(ast.Unparen(c.Args[0])))
+			}
+		}
+		return true
+	})
+	if loop == nil || target == nil {
+		return false, nil
+	}
+	g := core.GraphOf(fn)
+	head := g.LoopHead(loop)
+	if head < 0 {
+		return false, nil
+	}
+	for _, rid := range g.Returns() {
+		rs, ok := g.Nodes[rid].(*ast.ReturnStmt)
+		if !ok || len(rs.Results) == 0 {
+			continue
+		}
+		res := ast.Unparen(rs.Results[0])
+		if core.IsNil(info, res) {
+			continue
+		}
+		if core.ObjOf(info, rootExpr(res)) != target {
+			bad = append(bad, fmt.Sprintf("%s: returns %s, not the object the options are applied to (%s)", p.Rel(rs.Pos()), core.Str(res), target.Name()))
+			continue
+		}
+		if !g.Dominated(rid, map[int]bool{head: true}) {
+			bad = append(bad, fmt.Sprintf("%s: returns %s on a path that skips the option loop", p.Rel(rs.Pos()), target.Name()))
+		}
+	}
+	return true, bad
 }
